@@ -18,7 +18,7 @@ RULE = ('Each run draws an entry point (kcenters / kmedoids / hybrid; function o
         'indices), a setting (serial, or 2..6 simulated ranks with rank schedule, eager roots and poisoned receive '
         'buffers), data, metric, stopping rule, and - for k-medoids - the history of proposals (which member is '
         'proposed for which cluster in which sweep) or a random seed. Non-trivial: >= 2 clusters and either a k-medoids '
-        'proposal was processed or >= 2 ranks were scheduled; distinct = digest of configuration, data, history, schedule.')
+        'proposal was processed or >= 2 ranks were scheduled; In the thorough tier a quarter of the runs use deeper bounds (up to 10-12 ranks, 120-150 frames, 30-36 trajectories, 16 centres). distinct = digest of configuration, data, history, schedule.')
 BUDGET = {'quick': dict(runs=3000, wall_s=55, chunk=25), 'thorough': dict(runs=60000, wall_s=780, chunk=50)}
 COMPONENTS = {'real': ['enspara.cluster.kcenters/kmedoids/hybrid/util', 'enspara.mpi.ops', 'compiled libdist kernels'],
               'stub': ['MPI library (simmpi)', 'heap allocator (simalloc)']}
@@ -47,7 +47,9 @@ def scenario(ctx):
     t = ctx.tape
     e = C.E()
     mpi = t.flag(2, 5)
-    P = C.Problem(ctx, want_ranks=mpi, max_ranks=6, max_frames=48)
+    deep = ctx.tier == 'thorough' and t.flag(1, 4)
+    P = C.Problem(ctx, want_ranks=mpi, max_ranks=10 if deep else 6, max_frames=120 if deep else 48, max_traj=30 if deep else 24,
+                  max_len=12 if deep else 9)
     if P.N == 1:
         mpi = False
     k, cutoff = P.draw_stop(ctx)
